@@ -194,7 +194,7 @@ class EFINIXPLL(LiteXModule):
         c_range = self.get_c_range(device, clk_fb_phase)
         # FIXME: c_range must be limited to min/max
         for c in c_range: # 1. iterate around C factor and check fPLL
-            if clk_fb_freq * c < pll_range[0] or clk_fb_freq > pll_range[1]:
+            if clk_fb_freq * c < pll_range[0] or clk_fb_freq * c > pll_range[1]:
                 continue
             for o in O_fact:
                 oc = o * c
